@@ -178,6 +178,91 @@ def scripts(tier, seed, scale=1):
     return _exhaustive(top) + _boundary() + _random(tier, seed, scale)
 
 
+class _XX:
+    """second driver part: the C++ layer (linepart::array::set/apply with its merge path, polyline part views)"""
+    id = "C18"
+    area = "linepart"
+    driver = "drvxx_linepart"
+    cxx = True
+    fixed_lines = 1
+
+    @staticmethod
+    def corpus(chk):
+        return [(n, s) for n, s in gen.corpus(id) if s and s[0].startswith("xl ")]
+
+    @staticmethod
+    def scripts(tier, seed, scale=1):
+        out = []
+        rg = RANGES[0]
+        syms = rg[2:]
+        top = 4 if tier == "quick" else 5
+        seqs = [t for n in range(1, top + 1) for t in itertools.product(range(5), repeat=n)]
+        # one dimension: direct apply (first loop), and set + apply (merge path, as polyline::set does)
+        for s0 in range(0, len(seqs), 20):
+            lines = ["xl new", "xl range 0 %s %s" % (rg[0], rg[1])]
+            for t in seqs[s0:s0 + 20]:
+                dat = ",".join(syms[i] for i in t)
+                lines += ["xl new", "xl range 0 %s %s" % (rg[0], rg[1]), "xl data 0 " + dat, "xl apply 0", "xl poly",
+                          "xl apply 0", "xl new", "xl range 0 %s %s" % (rg[0], rg[1]), "xl data 0 " + dat,
+                          "xl set %d" % len(t), "xl apply 0", "xl poly", "xl apply 0"]
+            out.append(("xx1:%d" % s0, lines))
+        # two dimensions: every pair of sequences of length <= 3 (quick: every 7th pair)
+        short = [t for n in range(1, 4) for t in itertools.product(range(5), repeat=n)]
+        pairs = [(a, b) for a in short for b in short if len(a) == len(b)]
+        if tier == "quick":
+            pairs = pairs[::7]
+        r2 = RANGES[1]
+        for s0 in range(0, len(pairs), 20):
+            lines = ["xl new"]
+            for a, b in pairs[s0:s0 + 20]:
+                lines += ["xl new", "xl range 0 %s %s" % (rg[0], rg[1]), "xl range 1 %s %s" % (r2[0], r2[1]),
+                          "xl data 0 " + ",".join(syms[i] for i in a), "xl data 1 " + ",".join(r2[2 + i] for i in b),
+                          "xl set %d" % len(a), "xl apply 0", "xl apply 1", "xl poly"]
+            out.append(("xx2:%d" % s0, lines))
+        # limits
+        for n in (65532, 65533, 65534, 65535, 65536, 131066, 131067):
+            out.append(("xxlim:%d" % n, ["xl new", "xl set %d" % n, "xl range 0 0 1", "xl data 0 %d*1/2,2,1/2" % (n - 2), "xl apply 0", "xl poly",
+                                         "xl range 1 null", "xl data 1 %d*7" % n, "xl apply 1"]))
+        out.append(("xxempty", ["xl new", "xl apply 0", "xl set 0", "xl apply 0", "xl data 0 1,2", "xl apply 0", "xl set 5", "xl apply 0", "xl apply 1",
+                                "xl data 1 1,2,3,4,5,6,7", "xl apply 1", "xl poly", "xl apply 3", "xl set x", "xl data 3 1"]))
+        # random: up to three dimensions, repeated application
+        r = gen.rng(id, tier, seed, "xx-random")
+        for k in range((200 if tier == "quick" else 2500) * scale):
+            n = r.choice([1, 2, 3, 5, 8, 13, 30, r.randrange(1, 60)])
+            lines = ["xl new"]
+            for d in range(3):
+                a = r.randrange(-20, 20)
+                b = a + r.choice([0, 1, 4, 8, 16, r.randrange(0, 40)])
+                lines.append("xl range %d null" % d if r.random() < 0.1 else "xl range %d %s %s" % (d, _fmt8(a), _fmt8(b)))
+                cur = r.randrange(a - 8, b + 9)
+                vals = []
+                for _i in range(n):
+                    x = r.random()
+                    if x < 0.35:
+                        pass
+                    elif x < 0.7:
+                        cur = r.choice([a - 1, a, b, b + 1, (a + b) // 2, a - 9, b + 9])
+                    else:
+                        cur = cur + r.choice([-1, 1])
+                    vals.append(_fmt8(cur))
+                lines.append("xl data %d %s" % (d, ",".join(vals)))
+            if r.random() < 0.8:
+                lines.append("xl set %d" % n)
+            for _ in range(r.choice([1, 2, 3, 4])):
+                lines.append("xl apply %d" % r.randrange(3))
+                if r.random() < 0.5:
+                    lines.append("xl poly")
+            out.append(("xxrnd:%d" % k, lines))
+        return out
+
+    nontrivial = staticmethod(lambda script, c_lines: nontrivial(script, c_lines))
+    tally = staticmethod(lambda chk, script, c_lines: tally(chk, script, c_lines))
+    finding_key = staticmethod(lambda script, res: finding_key(script, res))
+
+
+extra_parts = [_XX]
+
+
 def nontrivial(script, c_lines):
     for ln in c_lines:
         if ln.startswith("R joined"):
